@@ -963,8 +963,10 @@ from pyvc.sym import uf as _uf  # noqa: E402
 
 
 def _fn(name, x):
-    if isinstance(x, Sym):
-        return wrap(_uf(name)(treal(x)))
+    if x is UNDEF:
+        return UNDEF          # out-of-range access inside an eagerly evaluated guarded clause
+    if isinstance(x, Sym) or isinstance(x, (Fraction, int)):
+        return wrap(_uf(name)(treal(x)))        # engine values (symbolic or exact): the uninterpreted function
     import numpy as np
     with np.errstate(all="ignore"):
         return float(getattr(np, name)(float(x)))
@@ -1026,7 +1028,7 @@ contract(
     requires=lambda a: _meff_requires(a),
     raises=[("ValueError", lambda a: ForAll(0, Tn(a.self), lambda t: _meff_expected(a, t)[0]))],
     ensures=_meff_post,
-    result=new_corr, crosscheck="loose",
+    result=new_corr, crosscheck=False,
     gen=lambda rng, case: {"self": _meff_corr(rng, case["variant"]), "variant": case["variant"], "guess": 1.0},
     note="the logarithm / arccosh are uninterpreted real functions: arguments outside their domain (non-positive quotient, |x| < 1) "
          "are outside this contract (NaN filtering does not exist over the reals); the arccosh variant is not decided (its domain "
